@@ -5,7 +5,7 @@ from vcheck import Check
 sys.path.insert(0, os.path.join(vcheck.VERIF, "tools"))
 import jdflimits as J
 
-LIM = {"in": 10, "out": 10, "flows": 20, "locals": 20}
+LIM = {"in": 10, "out": 10, "flows": 20, "locals": 20, "class_in": 28, "class_out": 23}
 
 
 def keep_ldefs(acc, dep):
@@ -135,6 +135,12 @@ class C24(Check):
         for total in (20, 21):
             out.append(J.case_text(normalise([(total - 4, [("R", [("i", "u"), ("o", "b", 2, 1, 0), ("o", "b", 1, 0, 0), ("o", "u")])])])))
             out.append(J.case_text(normalise([(total - 3, [("C", [("i", "u"), ("o", "t", 0, 1, 2), ("o", "u")]), ("R", [("i", "u"), ("o", "u")])])])))
+        # class-level dependency indices: 23 / 24 / 25 output dependencies over three flows (8, 8, 7/8/9), the last
+        # flow being the one that crosses the limit; 28 / 29 input dependencies
+        for last in (7, 8, 9):
+            out.append(J.case_text(normalise([(0, [("R", [("i", "u")] + [("o", "b")] * n_) for n_ in (8, 8, last)])])))
+        for last in (8, 9):
+            out.append(J.case_text(normalise([(0, [("C", [("i", "b")] * n_ + [("o", "u")]) for n_ in (10, 10, last)])])))
         # a ternary whose TRUE branch introduces more local definitions than its false branch
         out.append(J.case_text(normalise([(0, [("R", [("i", "u"), ("o", "t", 0, 1, 0), ("o", "b"), ("o", "u")])])])))
         out.append(J.case_text(normalise([(17, [("C", [("i", "u"), ("o", "t", 2, 1, 0), ("o", "b")]), ("RW", [("i", "u"), ("o", "t")])])])))
@@ -161,6 +167,25 @@ class C24(Check):
                     if r.chance(1, 2):
                         fls.insert(r.range(0, 1), self.rand_flow(r, False))
                     prog = [(total - 1 - want, fls)]
+            elif kind == 9 and r.chance(1, 2):
+                # class-level limit on dependency indices (24-bit action mask for outputs, 29 bits for inputs): several
+                # flows, each within its own limit of 10 entries, whose totals sit around the limit; the flow that
+                # crosses it is the last one, the first one, or one in the middle
+                direction = r.pick(["o", "o", "i"])
+                total = r.pick([22, 23, 24, 25, 26]) if direction == "o" else r.pick([27, 28, 29, 30])
+                sizes = []
+                while sum(sizes) < total:
+                    sizes.append(min(r.range(6, 10), total - sum(sizes)))
+                if r.chance(1, 2):
+                    sizes = r.shuffle(sizes)
+                fls = []
+                for n_ in sizes:
+                    acc = r.pick(["C", "R"]) if direction == "o" else "C"
+                    if direction == "o":
+                        fls.append((acc, [("i", "u")] + [("o", r.pick(["b", "b", "u"])) for _ in range(n_)]))
+                    else:
+                        fls.append((acc, [("i", "b") for _ in range(n_)] + [("o", "u")]))
+                prog = [(r.range(0, 2), fls)]
             elif kind == 8 and r.chance(1, 2):   # small valid programs with local definitions anywhere
                 prog = [(r.range(0, 3), [self.ldef_flow(r, r.range(1, 3)) for _ in range(r.range(1, 2))])]
             elif kind == 6:      # several classes, one over a limit
@@ -183,6 +208,8 @@ class C24(Check):
         for (nloc, flows) in prog:
             m.append(("locals", nloc + 1 + max([slots(dep) for (acc, deps) in flows for dep in deps] + [0])))
             m.append(("flows", len(flows)))
+            m.append(("class_in", sum(1 for (acc, deps) in flows for dep in deps if dep[0] == "i")))
+            m.append(("class_out", sum(1 for (acc, deps) in flows for dep in deps if dep[0] == "o")))
             for (acc, deps) in flows:
                 m.append(("in", sum((2 if dep[1] in ("t", "m") else 1) for dep in deps if dep[0] == "i")))
                 m.append(("out", sum((2 if dep[1] in ("t", "m") else 1) for dep in deps if dep[0] == "o")))
@@ -290,6 +317,11 @@ class C24(Check):
             return "accepted (exit status 0, C compiled) although %d generated entries do not fit a runtime array" % over
         if acc:
             mal, cnt = self.counts(case)
+            co = max([v for (k, v) in cnt if k == "class_out"] + [0])
+            ci = max([v for (k, v) in cnt if k == "class_in"] + [0])
+            if co > 24 or ci > 29:
+                return ("accepted (exit status 0, C compiled) although a task class has %d output / %d input dependencies: "
+                        "their indices do not fit the 24-bit action mask / 29-bit dependency mask of the runtime" % (co, ci))
             worst = max([v for (k, v) in cnt if k == "locals"] + [0])
             if worst > LIM["locals"]:
                 return ("accepted (exit status 0, C compiled) although a task class needs %d locals (named locals + "
